@@ -21,7 +21,7 @@ use std::time::{Duration, Instant};
 
 fn roundtrip_check(prop: &'static str, tier: Tier, seed: u64, json: bool) -> i32 {
     let mut rep = Report::new(prop, tier, seed, "exploration");
-    let n_random = budget(tier, 20_000, 2_000_000) as usize;
+    let n_random = budget(tier, 50_000, 10_000_000) as usize;
     let nw = ncpu();
     let stats: Mutex<Vec<RtStats>> = Mutex::new(Vec::new());
     parallel(nw, &mut rep, |w| {
@@ -295,7 +295,7 @@ pub fn parse_one(entry: &str) -> i32 {
 pub fn c18(tier: Tier, seed: u64) -> i32 {
     let mut rep = Report::new("C18", tier, seed, "exploration");
     let nw = ncpu();
-    let per_type = budget(tier, 3, 40) as usize;
+    let per_type = budget(tier, 4, 100) as usize;
     let alpha = alphabet();
     let text_entries = codec::text_entries();
     let json_entries = codec::json_entries();
@@ -409,7 +409,7 @@ pub fn c18(tier: Tier, seed: u64) -> i32 {
         }
     }
     if tier == Tier::Thorough && std::env::var("PLV_NO_FUZZ").is_err() {
-        crate::fuzz::run(&mut rep, budget(tier, 0, 120), ncpu().min(16));
+        crate::fuzz::run(&mut rep, budget(tier, 0, 300), ncpu().min(16));
     }
     rep.set("valid_encodings_mutated", json!(seeds.len()));
     rep.set("dictionary_strings", json!(dict.len()));
@@ -741,12 +741,12 @@ pub fn c09(tier: Tier, seed: u64) -> i32 {
     let nw = ncpu();
     let alpha = alphabet();
     let mut rng = Rng::derive(seed ^ 0xc09, 0);
-    let n_contents = budget(tier, 16, 120) as usize;
+    let n_contents = budget(tier, 16, 150) as usize;
     let all = contents(&mut rng, n_contents);
     // single faults over the whole alphabet are enumerated exhaustively for the first contents;
     // the remaining contents get all deletions / truncations / structural edits and sampled rest
-    let n_exhaustive = budget(tier, 16, 60) as usize;
-    let n_pairs = budget(tier, 200_000, 5_000_000);
+    let n_exhaustive = budget(tier, 16, 80) as usize;
+    let n_pairs = budget(tier, 200_000, 10_000_000);
     let jobs: Vec<(usize, u8)> = (0..all.len()).flat_map(|i| (0..4u8).map(move |j| (i, j))).collect();
     parallel(nw, &mut rep, |w| {
         let mut part = Report::new("C09", tier, seed, "fault_enumeration");
